@@ -2789,6 +2789,11 @@ fn gen_c20l(ch: &mut Choices) -> Plan {
     if role.is_server() {
         plan.peer.connect.keep_alive = ka;
         plan.tags.push("mode:keepalive".into());
+        if ch.chance(1, 2) {
+            // both timers configured: every packet that arrives in two pieces lends the connection's timer
+            // slot to the read-rate regime and has to give it back
+            plan.cfg.frame_read_rate = Some((1 + ch.choose(2) as u16, *ch.pick(&[0u16, 4]), *ch.pick(&[4u32, 64])));
+        }
         // a packet every keep-alive period (well inside the 1.5 x limit), or twice per period; mostly PINGREQ,
         // now and then a publish, some of them arriving in two pieces
         let period = u64::from(ka) * *ch.pick(&[1000u64, 500]);
@@ -2808,6 +2813,16 @@ fn gen_c20l(ch: &mut Choices) -> Plan {
         plan.cfg.client_keepalive_s = ka;
         plan.peer.auto_ack = true;
         plan.tags.push("mode:client-keepalive".into());
+        if ch.chance(1, 2) {
+            // the send window (of one) stays exhausted, with or without a broker that answers: the ping task
+            // must keep ticking next to parked senders for the whole two hours
+            match role {
+                Role::C5 => plan.peer.connack_props.push((33, PropVal::U16(1))),
+                _ => plan.cfg.max_send = 1,
+            }
+            plan.senders.push(vec![AppOp::PubQ1 { len: 2, pid: None }, AppOp::PubQ1 { len: 2, pid: None }]);
+            plan.peer.auto_ack = ch.chance(1, 2);
+        }
         let mut t = 0u64;
         let mut i = 0u32;
         while t + 61_000 <= total_ms {
